@@ -14,7 +14,7 @@ import genlib as G
 
 F = "routee-compass-core/src/util/compact_ordered_hash_map.rs"
 IMPL = "impl<K: Hash + Ord + PartialEq + Clone, V: Clone> CompactOrderedHashMap<K, V>"
-OBLIGATIONS = ["empty", "len", "is_empty", "contains_key", "get", "get_index", "insert", "insert_sequence_slots"]
+OBLIGATIONS = ["empty", "len", "is_empty", "contains_key", "get", "get_index", "get_pair", "next", "insert", "insert_sequence_slots", "lemma_every_slot_owned", "lemma_onto", "lemma_inj_len"]
 MUST_FAIL = ["vacuity_probe"]
 
 HEAD = """
@@ -31,6 +31,13 @@ pub open spec fn arr_map<KK, VV>(s: Seq<(KK, VV)>) -> Map<KK, VV>
 {
     if s.len() == 0 { Map::empty() } else { arr_map(s.drop_last()).insert(s.last().0, s.last().1) }
 }
+/// rule R-collect: `indexed.iter().find(|(_, f)| f.index == index).map(|(k, entry)| (k, &entry.v))` -- ASSUMED: HashMap::iter visits every entry, `find` returns the
+/// first visited entry that satisfies the predicate and None only if none does
+#[verifier::external_body]
+pub fn verif_find_slot<'a>(indexed: &'a HashMap<K, IndexedEntry<V>>, index: usize) -> (r: Option<(&'a K, &'a V)>)
+    ensures r matches Some(p) ==> indexed@.contains_key(*p.0) && indexed@[*p.0].index == index && *p.1 == indexed@[*p.0].v,
+            r is None ==> forall|k: K| indexed@.contains_key(k) ==> (#[trigger] indexed@[k]).index != index,
+{ indexed.iter().find(|(_, f)| f.index == index).map(|(k, entry)| (k, &entry.v)) }
 pub assume_specification<KK: Eq + Hash, VV, const N: usize>[ <HashMap<KK, VV> as From<[(KK, VV); N]>>::from ](arr: [(KK, VV); N]) -> (r: HashMap<KK, VV>)
     ensures vstd::std_specs::hash::obeys_key_model::<KK>() ==> r@ == arr_map(arr@);
 """
@@ -68,6 +75,8 @@ impl CompactOrderedHashMap<K, V> {
             CompactOrderedHashMap::NEntries(m) => m@.len(),
         }
     }
+    /// some key owns slot i
+    pub open spec fn has_slot(self, i: nat) -> bool { exists|k: K| self.index_of().contains_key(k) && #[trigger] self.index_of()[k] == i }
     /// representation invariant: keys distinct, every key's slot is < size, slots pairwise distinct
     pub open spec fn wf(self) -> bool {
         &&& match self {
@@ -86,6 +95,69 @@ impl CompactOrderedHashMap<K, V> {
 """
 
 LEMMAS = """
+// ---- pigeonhole (pure mathematics, proved): an injective map from a set of n keys into [0, n) hits every slot ----
+pub open spec fn below(d: Set<K>, f: Map<K, nat>, m: nat) -> bool { forall|k: K| #[trigger] d.contains(k) ==> f.contains_key(k) && f[k] < m }
+pub open spec fn inj(d: Set<K>, f: Map<K, nat>) -> bool { forall|a: K, b: K| #[trigger] d.contains(a) && #[trigger] d.contains(b) && a != b ==> f[a] != f[b] }
+pub proof fn lemma_inj_len(d: Set<K>, f: Map<K, nat>, m: nat)
+    requires below(d, f, m), inj(d, f)
+    ensures d.len() <= m
+    decreases m
+{
+    if m == 0 {
+        assert(d =~= Set::<K>::empty()) by { assert forall|k: K| !d.contains(k) by { if d.contains(k) { assert(f[k] < 0); } } }
+    } else if exists|k: K| #[trigger] d.contains(k) && f[k] == (m - 1) as nat {
+        let k0 = choose|k: K| #[trigger] d.contains(k) && f[k] == (m - 1) as nat;
+        let d1 = d.remove(k0);
+        assert(below(d1, f, (m - 1) as nat)) by {
+            assert forall|k: K| #[trigger] d1.contains(k) implies f.contains_key(k) && f[k] < (m - 1) as nat by { assert(d.contains(k) && k != k0); assert(d.contains(k0)); assert(f[k] != f[k0]); }
+        }
+        assert(inj(d1, f)) by { assert forall|a: K, b: K| #[trigger] d1.contains(a) && #[trigger] d1.contains(b) && a != b implies f[a] != f[b] by { assert(d.contains(a) && d.contains(b)); } }
+        lemma_inj_len(d1, f, (m - 1) as nat);
+    } else {
+        assert(below(d, f, (m - 1) as nat)) by {
+            assert forall|k: K| #[trigger] d.contains(k) implies f.contains_key(k) && f[k] < (m - 1) as nat by { assert(f[k] < m); assert(f[k] != (m - 1) as nat); }
+        }
+        lemma_inj_len(d, f, (m - 1) as nat);
+    }
+}
+pub proof fn lemma_onto(d: Set<K>, f: Map<K, nat>, n: nat, i: nat)
+    requires below(d, f, n), inj(d, f), d.len() == n, i < n
+    ensures exists|k: K| #[trigger] d.contains(k) && f[k] == i
+{
+    if !(exists|k: K| #[trigger] d.contains(k) && f[k] == i) {
+        let g = Map::<K, nat>::new(d, |k: K| if f[k] > i { (f[k] - 1) as nat } else { f[k] });
+        assert(below(d, g, (n - 1) as nat)) by {
+            assert forall|k: K| #[trigger] d.contains(k) implies g.contains_key(k) && g[k] < (n - 1) as nat by { assert(f[k] < n); assert(f[k] != i); }
+        }
+        assert(inj(d, g)) by {
+            assert forall|a: K, b: K| #[trigger] d.contains(a) && #[trigger] d.contains(b) && a != b implies g[a] != g[b] by { assert(f[a] != f[b]); assert(f[a] != i && f[b] != i); }
+        }
+        lemma_inj_len(d, g, (n - 1) as nat);
+    }
+}
+/// C11: "the slots are 0..n-1 with none shared or skipped": with the representation invariant EVERY slot below len is owned by a key
+pub proof fn lemma_every_slot_owned(m: CompactOrderedHashMap<K, V>, i: nat)
+    requires m.wf(), i < m.size()
+    ensures m.has_slot(i)
+{
+    let d = m.index_of().dom();
+    let f = m.index_of();
+    assert(d.len() == m.size()) by {
+        match m {
+            CompactOrderedHashMap::OneEntry { k1, v1 } => { assert(d =~= set![k1]); }
+            CompactOrderedHashMap::TwoEntries { k1, k2, v1, v2 } => { assert(d =~= set![k1, k2]); }
+            CompactOrderedHashMap::ThreeEntries { k1, k2, k3, v1, v2, v3 } => { assert(d =~= set![k1, k2, k3]); }
+            CompactOrderedHashMap::FourEntries { k1, k2, k3, k4, v1, v2, v3, v4 } => { assert(d =~= set![k1, k2, k3, k4]); }
+            CompactOrderedHashMap::NEntries(mm) => { assert(d =~= mm@.dom()); }
+        }
+    }
+    assert(below(d, f, m.size())) by { assert forall|k: K| #[trigger] d.contains(k) implies f.contains_key(k) && f[k] < m.size() by { assert(m.index_of().contains_key(k)); } }
+    assert(inj(d, f)) by { assert forall|a: K, b: K| #[trigger] d.contains(a) && #[trigger] d.contains(b) && a != b implies f[a] != f[b] by { assert(m.index_of().contains_key(a) && m.index_of().contains_key(b)); } }
+    lemma_onto(d, f, m.size(), i);
+    let k = choose|k: K| #[trigger] d.contains(k) && f[k] == i;
+    assert(m.index_of().contains_key(k) && m.index_of()[k] == i);
+}
+
 /// C11 for an arbitrary operation history: wf is an invariant of insert (contract above) and holds of empty(),
 /// so after ANY sequence of inserts every key owns one slot < len and no two keys share a slot; an existing
 /// key keeps its slot, a new key gets slot `len`.
@@ -142,6 +214,14 @@ def build(x):
     fn("get_index", """        requires self.wf(),
         ensures r is Some <==> self.index_of().contains_key(*k),
                 r is Some ==> r->Some_0 == self.index_of()[*k],""")
+    gp = fn("get_pair", """        requires self.wf(),
+        ensures
+            // C11 (iteration by ascending index): what is handed out for slot `index` is THE key that owns that slot, with its current value; nothing is handed out
+            // only if no key owns the slot
+            r matches Some(p) ==> self.index_of().contains_key(*p.0) && self.index_of()[*p.0] == index && *p.1 == self.value_of()[*p.0],
+            r is None ==> !self.has_slot(index as nat),""")
+    gp.rewrite(r"indexed\s*\.iter\(\)\s*\.find\(\|\(_, f\)\| f\.index == index\)\s*\.map\(\|\(k, entry\)\| \(k, &entry\.v\)\)", "verif_find_slot(indexed, index)", 1, 1, rule="R-collect")
+    x.note("R-collect", "get_pair (NEntries): `indexed.iter().find(|(_, f)| f.index == index).map(|(k, entry)| (k, &entry.v))` written verif_find_slot(indexed, index) (assumed: the first entry whose index is `index`, None only if there is none)")
     ins = fn("insert", """        requires old(self).wf(), old(self).size() < usize::MAX - 1,
         ensures
             final(self).wf(),
@@ -190,6 +270,28 @@ def build(x):
     body = ("impl CompactOrderedHashMap<K, V> {\n" + "\n\n".join(f.text for f in fns) + "\n}\n")
     x.note("R6", "impl header `%s` instantiated at `type K = u64; type V = u64;` (bodies verbatim)" % IMPL)
     parts.append(body)
+    # ---- the iterator: ascending slots ----
+    it_struct = x.item_text(F, "struct CompactOrderedHashMapIter")
+    it_struct = it_struct.replace("<'a, K: Hash + Ord + PartialEq + Clone, V: Clone>", "<'a>").replace("    iterable:", "    pub iterable:").replace("    index:", "    pub index:")
+    x.note("R6", "struct CompactOrderedHashMapIter / its Iterator impl: generic parameters instantiated at K = V = u64; R3: `impl Iterator .. :: fn next` written as an inherent method; R2: fields made pub")
+    parts.append(it_struct + "\n")
+    nx = x.fn(F, "impl<'a, K: Hash + Ord + PartialEq + Clone, V: Clone> Iterator for CompactOrderedHashMapIter<'a, K, V> :: fn next")
+    nx.rewrite(r"\A(\s*)fn ", r"\1pub fn ", 1, 1, rule="R2")
+    nx.rewrite(r"Option<Self::Item>", "Option<(&'a K, &'a V)>", 1, 1, rule="R3")
+    nx.rewrite(r"self\.index \+= 1;", "self.index = self.index + 1;", 1, 1, rule="R-compound")
+    nx.name_return("r")
+    nx.add_spec("""        requires old(self).iterable.wf(),
+        ensures
+            final(self).iterable == old(self).iterable,
+            // C11: the iterator hands out the entry that owns slot `index` and moves to the next slot: entries come in ASCENDING SLOT order, each key with its current
+            // value, none twice
+            r matches Some(p) ==> old(self).index < old(self).iterable.size() && old(self).iterable.index_of().contains_key(*p.0) && old(self).iterable.index_of()[*p.0] == old(self).index
+                && *p.1 == old(self).iterable.value_of()[*p.0] && final(self).index == old(self).index + 1,
+            // it stops exactly at the end: every slot below len is owned (pigeonhole lemma), so ALL len entries are handed out
+            r is None <==> old(self).index >= old(self).iterable.size(),
+            r is None ==> final(self).index == old(self).index,""")
+    nx.body_start("        proof { if self.index < self.iterable.size() { lemma_every_slot_owned(*self.iterable, self.index as nat); } }")
+    parts.append("impl<'a> CompactOrderedHashMapIter<'a> {\n" + nx.text + "\n}\n")
     parts.append(LEMMAS)
     parts.append("""
 // vacuity guard: MUST FAIL
